@@ -61,11 +61,27 @@ EXTRA = [
 ]
 
 
+TEXT_DOC = ('<svg xmlns="http://www.w3.org/2000/svg" viewBox="0 0 100 100"><g fill="red" stroke="blue" stroke-width="2" stroke-linecap="round" stroke-linejoin="bevel" '
+            'fill-rule="evenodd" stroke-miterlimit="3" stroke-dasharray="2 1" fill-opacity="0.5" stroke-opacity="0.7" clip-rule="evenodd" display="inline">'
+            '<text x="5" y="20">Hi<tspan dx="2">there</tspan></text><rect width="10" height="10"/><text x="5" y="40" fill="green">yo</text></g></svg>')
+ROT_GRAD = ('<svg xmlns="http://www.w3.org/2000/svg" viewBox="0 0 100 100"><defs><linearGradient id="a" x1="0.1" x2="0.9"><stop offset="0" stop-color="red"/>'
+            '<stop offset="1" stop-color="blue"/></linearGradient></defs><rect x="10" y="10" width="50" height="30" fill="url(#a)" transform="rotate(30) skewX(11)"/>'
+            '<circle cx="60" cy="60" r="17" fill="url(#a)" transform="scale(1.37 0.71) rotate(-12.3)"/></svg>')
+
+
 def gen_case(rng, i):
     if i < len(EXTRA):
         return {"kind": "extra", "src": EXTRA[i], "ndigits": 3, "allow_text": False, "drop": False}
+    if i == len(EXTRA):
+        return {"kind": "text", "src": TEXT_DOC, "ndigits": 3, "allow_text": True, "drop": False}
+    if i == len(EXTRA) + 1:
+        # options of one call must not leak into the next: an unusually precise conversion early in the batch ...
+        return {"kind": "precise", "src": ROT_GRAD, "ndigits": 9, "allow_text": False, "drop": False}
+    if i == len(EXTRA) + 2:
+        # ... and the same document at the default precision
+        return {"kind": "rotgrad", "src": ROT_GRAD, "ndigits": 3, "allow_text": False, "drop": False}
     kind, src = pipeline.gen_doc(rng)
-    return {"kind": kind, "src": src, "ndigits": rng.choice([3, 3, 3, 0, 2, 5]), "allow_text": rng.random() < 0.2, "drop": rng.random() < 0.3}
+    return {"kind": kind, "src": src, "ndigits": rng.choice([3, 3, 3, 0, 2, 5, 8]), "allow_text": rng.random() < 0.2, "drop": rng.random() < 0.3}
 
 
 def ops_of(c):
